@@ -168,6 +168,31 @@ def scenarios(tier, rng, boost):
                             out.append(Scn(files, [sub + "in.scss"], rng.choice("ec"), rng.randint(0, 12),
                                            "lp" if give_lp else None, "load-order",
                                            {"kind": "lo:%s:dep:%s" % ("i" if how.startswith("@import") else "u", expect)}))
+    # (2b) stray non-directory / non-file entries that shadow a candidate name in an earlier search directory:
+    # a plain file named like the url (so `<url>/index.scss` is "not a directory" there), a directory named
+    # `<url>.scss` (not a file), in the input's directory or in the load path
+    MOD_DIR, MOD_LP = "$v: dir; .m { from: dir; }", "$v: lp; .m { from: lp; }"
+    for how in ("@use \"theme\";", "@import \"theme\";", "@use \"theme\" as t;\nb { c: t.$v; }"):
+        for stray_in, real_in, stray_lp, real_lp, give_lp in (
+                ("theme", None, None, "theme/_index.scss", True), ("theme", None, None, "theme/index.scss", True),
+                ("theme", None, None, "_theme.scss", True), ("theme.scss/keep.txt", None, None, "_theme.scss", True),
+                ("theme.scss/keep.txt", None, None, "theme/_index.scss", True), ("theme", "_theme.scss", None, "theme/_index.scss", True),
+                (None, "theme/_index.scss", "theme", None, True), (None, None, "theme", None, True),
+                ("theme", None, None, None, False), ("theme.scss/keep.txt", "theme/index.scss", None, "theme.scss", True),
+                ("theme/_index.scss/keep.txt", None, None, "theme/_index.scss", True)):
+            files = {"in/main.scss": how + "\nx { y: z; }"}
+            if stray_in:
+                files["in/" + stray_in] = "stray"
+            if real_in:
+                files["in/" + real_in] = MOD_DIR
+            if stray_lp:
+                files["lp/" + stray_lp] = "stray"
+            if real_lp:
+                files["lp/" + real_lp] = MOD_LP
+            files.setdefault("lp/_other.scss", "o { p: q; }")
+            expect = "dir" if real_in else ("lp" if (real_lp and give_lp) else "-")
+            out.append(Scn(files, ["in/main.scss"], rng.choice("ec"), rng.randint(0, 12), "lp" if give_lp else None,
+                           "load-order-stray", {"kind": "lo:%s:theme:%s" % ("i" if how.startswith("@import") else "u", expect)}))
     # (3) usage errors
     for extra, why in ((["--precision", "2", "--precision", "3"], "repeated option"),
                        (["-I", "lp", "-I", "lp"], "repeated load path"),
